@@ -336,7 +336,9 @@ impl Engine {
         }
         for vs in 0..self.m.hvols.len() {
             if self.m.hvols[vs].is_some() {
-                self.step(Op::CloseVol { fl: Fl::Raw, vs });
+                // (both API flavours end histories: raw close_volume and Volume::close)
+                let fl = if (self.ops.len() + vs) % 2 == 0 { Fl::Raw } else { Fl::Wrap };
+                self.step(Op::CloseVol { fl, vs });
             }
         }
     }
